@@ -42,6 +42,7 @@ type target struct {
 	memMB    int
 	batches  int
 	minNT    int
+	heavy    bool
 }
 
 var targets []target
@@ -71,6 +72,10 @@ func (Prop) Plan(tier string) []lib.Workload {
 			b = 4
 			if tier == "thorough" {
 				b = 8
+				if t.heavy {
+					// database-backed targets: more, shorter batches keep all cores busy until the end
+					b = 16
+				}
 			}
 		}
 		out = append(out, lib.Workload{Name: t.name, Cases: n, Batches: b, MinNontrivial: t.minNT, MemLimitMB: t.memMB,
